@@ -125,6 +125,9 @@ def run_proofreader_options(tex, language, disable, enable,
 
             for m in matches:
                 m['offset'] = json_get(m, 'offset', int) + len(plain_tot)
+                # the length is used by utils.map_match_position():
+                # check it here, together with the offset
+                json_get(m, 'length', int)
             matches_tot += matches
             plain_tot += plain
             charmap_tot += charmap
